@@ -473,7 +473,7 @@ fn provide_i18n_context_component_inner<L: Locale, Chil: IntoView>(
     let i18n = provide_i18n_context_with_options_inner(options);
     let children = children();
     #[cfg(all(feature = "dynamic_load", feature = "ssr"))]
-    let embed_translations = move || embed_translations_fn(reg_ctx.clone());
+    let embed_translations = move || reg_ctx.clone().map(embed_translations_fn);
     #[cfg(not(all(feature = "dynamic_load", any(feature = "ssr", feature = "hydrate"))))]
     let embed_translations = view! { <script /> };
     let lang = set_lang_attr_on_html
